@@ -606,7 +606,7 @@ func genHist(t *Tracer, m *Meta, prop, tier string, seed int64, histFile string)
 	if len(hists) == 0 {
 		panic("no histories from the specification")
 	}
-	budget := 220
+	budget := 1000
 	if tier != "quick" {
 		budget = 3000
 	}
